@@ -6,8 +6,11 @@
 (* right after <-c.ready, before its watchdog exists):                     *)
 (*   {"ev":"enq","p":"p1","k":"k1","id":3,"found":1,"ids":[2,3]}           *)
 (*   {"ev":"grant","p":"p1","k":"k1","id":3,"found":0,"ids":[]}            *)
-(*   {"ev":"rem","cause":"unlock"|"ttl"|"cancel","p":..,"k":..,"id":..,    *)
-(*      "found":0|1,"ids":[queue after]}                                   *)
+(*   {"ev":"rem","cause":"unlock"|"ttl"|"cancel","p":..,"k":..,"id":..}    *)
+(*      a queue.remove call has taken q.mu (logged BEFORE it wakes anybody,*)
+(*      so the lines of the callers / watchdogs it wakes follow it)        *)
+(*   {"ev":"remend","k":..,"id":..,"found":0|1,"ids":[queue after]}        *)
+(*      the same call returns, still under q.mu: what it really did        *)
 (*   {"ev":"rest","pcs":{"p1":"holding",..},"qmap":["k1"],..}  the driver  *)
 (*      saw every caller idle / holding / "waiting" (parked in its select: *)
 (*      it must not have been told to go) / "aborting" (held by the driver *)
@@ -27,71 +30,80 @@ Trace == ndJsonDeserialize(IOEnv.TRACE_FILE)
 TraceDev == IF "TRACE_DEV" \in DOMAIN IOEnv /\ IOEnv.TRACE_DEV # "" THEN {IOEnv.TRACE_DEV} ELSE {}
 CheckQmap == "CHECK_QMAP" \in DOMAIN IOEnv /\ IOEnv.CHECK_QMAP = "1"
 
-VARIABLES l, run
-tvars == <<vars, l, run>>
+VARIABLES l, run,
+          pend     \* [Keys -> result (found) the spec gave to the remove call in progress on that key's queue, -1 none]
+tvars == <<vars, l, run, pend>>
 
 AsSeq(x) == [i \in 1..Len(x) |-> x[i]]
 QIds(q) == [i \in DOMAIN q |-> q[i].id]
 AsSet(x) == {x[i] : i \in 1..Len(x)}
 
-TraceInit == Init /\ l = 1 /\ run = 0
+TraceInit == Init /\ l = 1 /\ run = 0 /\ pend = [k \in Keys |-> -1]
 
 Line == Trace[l]
 Is(e) == l <= Len(Trace) /\ Line.ev = e
 Step == l' = l + 1 /\ run' = run
+Same == pend' = pend
+Begun == pend' = [pend EXCEPT ![Line.k] = last'.res]
 IdsLogged == QIds(queue'[Line.k]) = AsSeq(Line.ids)
 
 TrEnq ==
-  /\ Is("enq") /\ Step
+  /\ Is("enq") /\ Step /\ Same
   /\ Enq(Line.p, Line.k)
   /\ last'.id = Line.id /\ last'.res = Line.found
   /\ IdsLogged
 
 TrGrant ==
-  /\ Is("grant") /\ Step
+  /\ Is("grant") /\ Step /\ Same
   /\ Acquire(Line.p)
   /\ cur[Line.p] = Line.id /\ key[Line.p] = Line.k
 
 TrUnlock ==
   /\ Is("rem") /\ Line.cause = "unlock" /\ Step
   /\ \E p \in (IF Line.p = "" THEN Procs ELSE {Line.p}) : Unlock(p, Line.k, Line.id)
-  /\ last'.res = Line.found
-  /\ IdsLogged
+  /\ Begun
 
-\* the watchdog's remove: the TTL of a live grant fires, or (found = 0) the grant is gone already
+\* the watchdog's remove: the TTL of a live grant fires, or the grant is gone already (nothing happens)
 TrTtl ==
   /\ Is("rem") /\ Line.cause = "ttl" /\ Step
-  /\ IF Line.found = 1
+  /\ IF \E i \in DOMAIN queue[Line.k] : queue[Line.k][i].id = Line.id
        THEN /\ \E p \in Procs : cur[p] = Line.id /\ key[p] = Line.k /\ Expire(p)
-            /\ IdsLogged
-       ELSE /\ \A i \in DOMAIN queue[Line.k] : queue[Line.k][i].id # Line.id
-            /\ QIds(queue[Line.k]) = AsSeq(Line.ids)
-            /\ UNCHANGED vars
+            /\ Begun
+       ELSE /\ UNCHANGED vars
+            /\ pend' = [pend EXCEPT ![Line.k] = 0]
+
+\* the remove call returns: it found what the spec said it would find, and the queue is the spec's
+TrRemEnd ==
+  /\ Is("remend") /\ Step
+  /\ pend[Line.k] = Line.found
+  /\ QIds(queue[Line.k]) = AsSeq(Line.ids)
+  /\ pend' = [pend EXCEPT ![Line.k] = -1]
+  /\ UNCHANGED vars
 
 \* the watchdog goroutine of a finished grant returns
 TrWdExit ==
-  /\ Is("wdexit") /\ Step
+  /\ Is("wdexit") /\ Step /\ Same
   /\ WdExit(Line.id)
 
 TrAbort ==
   /\ Is("rem") /\ Line.cause = "cancel" /\ Step
-  /\ Line.found = 1
   /\ cur[Line.p] = Line.id /\ key[Line.p] = Line.k
   /\ AbortBody(Line.p)
-  /\ IdsLogged
+  /\ Begun
 
 ObsPc(p) == IF p \in DOMAIN Line.pcs THEN Line.pcs[p] ELSE "idle"
 
 \* a point of rest: nobody who has been told to go is still in its select
 TrRest ==
-  /\ Is("rest") /\ Step
+  /\ Is("rest") /\ Step /\ Same
+  /\ \A k \in Keys : pend[k] = -1
   /\ \A p \in Procs : pc[p] = (IF ObsPc(p) = "aborting" THEN "waiting" ELSE ObsPc(p))
   /\ \A p \in Procs : ObsPc(p) = "waiting" => ~ready[p]
   /\ (CheckQmap => (qmap = AsSet(Line.qmap) /\ wd = AsSet(Line.wd) /\ WdQuiescent))
   /\ UNCHANGED vars
 
 TrReset ==
-  /\ Is("reset") /\ l' = l + 1 /\ run' = run + 1
+  /\ Is("reset") /\ l' = l + 1 /\ run' = run + 1 /\ pend' = [k \in Keys |-> -1]
   /\ (IF l = 1 THEN TRUE ELSE PrintT(ToJson([run |-> run, line |-> l])))
   /\ queue' = [k \in Keys |-> <<>>] /\ qmap' = {} /\ nextId' = 0
   /\ pc' = [p \in Procs |-> "idle"] /\ key' = [p \in Procs |-> ""] /\ cur' = [p \in Procs |-> 0]
@@ -103,9 +115,9 @@ TrEnd ==
   /\ l = Len(Trace) + 1
   /\ PrintT(ToJson([run |-> run, line |-> l]))
   /\ PrintT(ToJson([accepted |-> TRUE, lines |-> Len(Trace)]))
-  /\ l' = l + 1 /\ UNCHANGED <<vars, run>>
+  /\ l' = l + 1 /\ UNCHANGED <<vars, run, pend>>
 
-TraceNext == TrEnq \/ TrGrant \/ TrUnlock \/ TrTtl \/ TrAbort \/ TrWdExit \/ TrRest \/ TrReset \/ TrEnd
+TraceNext == TrEnq \/ TrGrant \/ TrUnlock \/ TrTtl \/ TrAbort \/ TrRemEnd \/ TrWdExit \/ TrRest \/ TrReset \/ TrEnd
 TraceSpec == TraceInit /\ [][TraceNext]_tvars
 
 \* the step properties of the design, on every step of the trace except the resets
